@@ -161,7 +161,11 @@ def float_cases(rnd, n):
         if k < 0.3:
             s = "%d.%s" % (rnd.randint(0, 10**rnd.randint(0, 12)), "".join(rnd.choice("0123456789") for _ in range(rnd.randint(1, 20))))
         elif k < 0.6:
-            s = "%s%de%d" % (rnd.choice(["", "-", "+"]), rnd.randint(1, 10**rnd.randint(1, 17)), rnd.randint(-40, 38))
+            # (every spelling of the exponent a decimal literal may have: e / E, with and without sign, with a fraction, a bare
+            # leading or trailing point)
+            e_ = rnd.randint(-40, 38)
+            mant = rnd.choice(["%d" % rnd.randint(1, 10**rnd.randint(1, 17)), "%d.%d" % (rnd.randint(0, 99), rnd.randint(0, 9999)), ".%d" % rnd.randint(1, 999999), "%d." % rnd.randint(1, 9999)])
+            s = "%s%s%s%s%d" % (rnd.choice(["", "-", "+"]), mant, rnd.choice("eE"), "+" if e_ >= 0 and rnd.random() < 0.4 else "", e_)
         elif k < 0.8:
             # near a float32 value's midpoint: exercises ties / double rounding
             b = rnd.randint(0x00800000, 0x7f000000)
